@@ -160,17 +160,38 @@ def rule_clock(ctx):
             others.append((db, txt))
     ctx.check(len(incs) == 1 and len(zeros) >= 1 and not others, "make_move:clock-values", "the clock is either 0 or (previous record's clock) + 1", mk.where(asg[0][0]),
               bad_what="halfmove_clock candidates: %d increment(s), %d reset(s), other: %s" % (len(incs), len(zeros), others))
-    if len(incs) == 1:
-        cons = C.constraints_for(ix, mk, sym, incs[0])
-        got = {}
-        for text, vals, _d, e in cons:
-            if "piece" in text or "captured" in text:
-                got[text] = set(vals)
-        piece = [v for t, v in got.items() if "captured" not in t]
-        capt = [v for t, v in got.items() if "captured" in t]
-        ok = len(piece) == 1 and "Pawn" not in piece[0] and piece[0] == {"King", "Queen", "Rook", "Bishop", "Knight"} and len(capt) == 1 and capt[0] == {"None"}
-        ctx.check(ok, "make_move:clock-increment-condition", "+1 exactly when the mover is not a pawn and nothing is captured; every other case resets to 0", mk.where(incs[0]),
-                  bad_what="the clock is incremented under %s (expected: piece not Pawn and captured_piece None)" % {t: sorted(map(str, v)) for t, v in got.items()})
+    # the table (mover kind, capture?, castles?, promotion?) -> clock, read off by per-case constant propagation: 0 exactly for
+    # pawn moves and captures, previous + 1 in every other case -- whatever the move's other flags are
+    from . import cases
+    col = ("arg", "COLOUR")
+    wrong = []
+    n_cases = 0
+    for kind in ("Pawn", "Knight", "Bishop", "Rook", "Queen", "King"):
+        for cap in ("None", "Some"):
+            for castles in (0, 1):
+                inp = {"new_move.piece": cases.enum_val(ix, "board::piece::Kind", kind, [col]),
+                       "new_move.captured_piece": cases.option(cap, [("arg", "CAPTURED")] if cap == "Some" else ()),
+                       "new_move.is_castles": ("const", castles, "bool")}
+                c = cases.run(ix, mk, inp)
+                vals = set()
+                for p in c.paths:
+                    stores = [e for e in p.events if e[0] == "store" and e[2].endswith("halfmove_clock")]
+                    if p.end == "return" and len(stores) != 1:
+                        vals.add("%d stores" % len(stores))
+                    for e in stores:
+                        v = e[3]
+                        if v == ("const", 0, "u16"):
+                            vals.add("0")
+                        elif v[0] == "bin" and v[1].startswith("Add") and v[3] == ("const", 1, "u16") and "halfmove_clock" in expr_str(v[2]) and "last(" in expr_str(v[2]):
+                            vals.add("prev+1")
+                        else:
+                            vals.add(expr_str(v)[:50])
+                n_cases += 1
+                want = {"0"} if (kind == "Pawn" or cap == "Some") else {"prev+1"}
+                if c.overflow or vals != want:
+                    wrong.append(("%s%s%s" % (kind, " capturing" if cap == "Some" else "", " castling" if castles else ""), sorted(vals)))
+    ctx.check(not wrong, "make_move:clock-increment-condition", "the clock is 0 exactly for pawn moves and captures and previous+1 otherwise (%d cases: kind x capture x castling)" % n_cases, mk.where(asg[0][0]),
+              bad_what="halfmove clock by case: %s (expected 0 exactly for pawn moves and captures, previous+1 otherwise)" % wrong[:6])
 
 
 def rule_ep(ctx):
